@@ -181,39 +181,42 @@ Theorem C17_href_of_subsite_root : forall p, p <> [] -> (href_of_path p ++ href_
 Proof. exact href_of_path_root. Qed.
 Print Assumptions C17_href_of_subsite_root.
 
-(* ---- 6. one RFC 6690 filter query returns exactly the matching subset.
-        href: unconditionally.  Other attributes: PARTIAL — under key_ok / link_ok (lower-case names, one pair per name, the
-        filtered attribute has a value, the name is not title/rel/anchor/rev/media/type nor a Python attribute of Link, and for
-        rt/if/ct the search token is non-empty).  What is missing is false of the code: see the four _refuted witnesses. *)
-Theorem C17_wkc_filter_href : forall v ls, filter_links "href" v ls = Ok (filter (rfc6690_match "href" v) ls).
-Proof. exact filter_links_href. Qed.
-Print Assumptions C17_wkc_filter_href.
-Theorem C17_wkc_filter_single_partial : forall k v ls, key_ok k v -> Forall (link_ok k) ls ->
-  filter_links k v ls = Ok (filter (rfc6690_match k v) ls).
+(* ---- 6. one RFC 6690 filter query returns exactly the matching subset — unconditionally (every name, every pattern, every list
+        of links; since the fix f691489 of the four filter defects this check found).  Matches k v l: some candidate x of l for the
+        name k (the href; or a value — for rt/if/ct/rel a space-separated item of a value — of an attribute named k, names
+        case-insensitive, valueless or missing attributes denote nothing) equals v, or starts with v minus the star. *)
+Theorem C17_wkc_filter_single : forall k v ls l, In l (filter_links k v ls) <-> In l ls /\ Matches k v l.
 Proof. exact filter_links_spec. Qed.
-Print Assumptions C17_wkc_filter_single_partial.
+Print Assumptions C17_wkc_filter_single.
+Theorem C17_wkc_filter_keeps_order : forall k v ls, exists keep : link -> bool,
+  filter_links k v ls = filter keep ls /\ forall l, keep l = true <-> Matches k v l.
+Proof. exact filter_links_sublist. Qed.
+Print Assumptions C17_wkc_filter_keeps_order.
 Theorem C17_wkc_filter_applies_to_listing : forall ls impl q k v, split_eq q = Some (k, v) ->
-  wkc_render_get ls impl (Some q) = filter_links k v (ls ++ impl_info_links impl).
+  wkc_render_get ls impl (Some q) = Ok (filter_links k v (ls ++ impl_info_links impl)).
 Proof. exact wkc_filter_is_filter_links. Qed.
 Print Assumptions C17_wkc_filter_applies_to_listing.
+Theorem C17_wkc_never_fails : forall ls impl q, exists r, wkc_render_get ls impl q = Ok r.
+Proof. exact wkc_total. Qed.
+Print Assumptions C17_wkc_never_fails.
 
-(* the unconditional statement is refuted by the faithful model (each witness is replayed on the implementation by the check:
-   known findings C17:filter-crash-valueless-attribute, -single-valued-attr-by-character, -empty-pattern-matches-missing-attribute,
-   -crash-python-attribute-name) *)
-Example C17_filter_valueless_attribute_refuted :
-  filter_links "obs" "*" [("/o"%string, [("obs"%string, None)])] = Raise AttributeError.
+(* the four former findings (fixed: C17:filter-crash-valueless-attribute, -single-valued-attr-by-character,
+   -empty-pattern-matches-missing-attribute, -crash-python-attribute-name), now positive *)
+Example C17_filter_valueless_attribute :
+  filter_links "obs" "*" [("/o"%string, [("obs"%string, None)])] = [].
 Proof. vm_compute. reflexivity. Qed.
-Example C17_filter_single_valued_attribute_refuted :
-  filter_links "title" "hello" [("/a"%string, [("title"%string, Some "hello"%string)])] = Ok [] /\
-  rfc6690_match "title" "hello" ("/a"%string, [("title"%string, Some "hello"%string)]) = true /\
-  filter_links "title" "h" [("/a"%string, [("title"%string, Some "hello"%string)])] = Ok [("/a"%string, [("title"%string, Some "hello"%string)])].
+Example C17_filter_single_valued_attribute :
+  let l := ("/a"%string, [("title"%string, Some "hello"%string)]) in
+  filter_links "title" "hello" [l] = [l] /\ filter_links "title" "h" [l] = [] /\ filter_links "Title" "hel*" [l] = [l] /\
+  filter_links "rel" "impl-info" (impl_info_links (Some "u"%string)) = impl_info_links (Some "u"%string).
 Proof. vm_compute. repeat split. Qed.
-Example C17_filter_empty_pattern_refuted :
-  filter_links "rt" "*" [("/a"%string, [])] = Ok [("/a"%string, [])] /\ rfc6690_match "rt" "*" ("/a"%string, []) = false.
+Example C17_filter_empty_pattern :
+  filter_links "rt" "*" [("/a"%string, []); ("/b"%string, [("rt"%string, Some ""%string)])] = [("/b"%string, [("rt"%string, Some ""%string)])] /\
+  filter_links "rt" "" [("/a"%string, [])] = [].
 Proof. vm_compute. split; reflexivity. Qed.
-Example C17_filter_python_attribute_refuted :
-  filter_links "to_py" "x" [("/a"%string, [])] = Raise TypeError /\
-  filter_links "attr_pairs" "x*" [("/a"%string, [("rt"%string, Some "x"%string)])] = Raise AttributeError.
+Example C17_filter_python_attribute_name :
+  filter_links "to_py" "x" [("/a"%string, [])] = [] /\
+  filter_links "attr_pairs" "x*" [("/a"%string, [("rt"%string, Some "x"%string)])] = [].
 Proof. vm_compute. split; reflexivity. Qed.
 
 (* ---- non-vacuity *)
@@ -248,15 +251,11 @@ Example C17_listing_nonvacuous :
 Proof. vm_compute. split; reflexivity. Qed.
 Example C17_filter_nonvacuous :
   let ls := [("/a", [("rt", Some "x y")]); ("/b", [("rt", Some "temp")]); ("/c", [("ct", Some "40")])]%string in
-  key_ok "rt" "x" /\ Forall (link_ok "rt") ls /\ filter (rfc6690_match "rt" "x") ls = [("/a", [("rt", Some "x y")])]%string /\
-  key_ok "sz" "1*" /\ key_ok "if" "core*".
+  filter_links "rt" "x" ls = [("/a", [("rt", Some "x y")])]%string /\ filter_links "rt" "te*" ls = [("/b", [("rt", Some "temp")])]%string /\
+  filter_links "href" "/*" ls = ls /\ Matches "rt" "y" ("/a", [("rt", Some "x y")])%string.
 Proof.
-  cbv zeta. split; [|split; [|split; [|split]]].
-  - unfold key_ok. vm_compute. repeat split; intros; discriminate.
-  - repeat constructor; cbn; try lia; try (intros a [H|H]; [subst; reflexivity | contradiction]); try (intros [H|H]; [discriminate | contradiction]); intros [].
-  - vm_compute. reflexivity.
-  - unfold key_ok. vm_compute. repeat split; intros; discriminate.
-  - unfold key_ok. vm_compute. repeat split; intros; discriminate.
+  cbv zeta. split; [|split; [|split]]; try (vm_compute; reflexivity).
+  apply link_matches_spec. vm_compute. reflexivity.
 Qed.
 Example C17_history_nonvacuous :
   snd (run (NSite [] [])
